@@ -179,9 +179,19 @@ def _constructor(ctx: Ctx) -> None:
            if cap_ok else "no constant cap on upper_bound found",
            construct="upper bound cap")
     # ---------------- D5.4 farthest <= 0 rejected
-    rej = [e for e in gw.exits if e.kind == "raise" and len(e.loops) == 1
-           and not is_opaque(e.cond) and e.cond[0] == "le"
-           and e.cond[2] == Poly.const(0)]
+    from sa.casesplit import equivalent
+    rej = []
+    for e in gw.exits:
+        if e.kind == "raise" and len(e.loops) == 1 and not is_opaque(
+                e.cond) and e.cond[0] in ("le", "lt", "not"):
+            # `x <= 0`, `x < 1`, `not x > 0` ... over the integers
+            for a in sorted({a for a in all_atoms(e.cond)
+                             if a[0] in ("var", "app", "maxred", "minred",
+                                         "cell")}, key=repr):
+                if equivalent(e.cond, ("le", Poly.atom(a),
+                                       Poly.const(0)))[0]:
+                    rej.append(e)
+                    break
     ctx.ob("D5.4", new, rej[0].node if rej else new.node, bool(rej),
            "rows without a positive off-diagonal entry are rejected"
            if rej else "no rejection of `farthest_neighbor <= 0`",
